@@ -266,6 +266,15 @@ def compile_cases(draw):
     for i in range(draw(st.integers(1, 6))):
         nm = draw(st.sampled_from(["A", "B", "C"]))
         body.append("int v%d = %s + %d;" % (i, nm, i))
+    if draw(st.booleans()):
+        # macro names in the places where the parser consumes an identifier's spelling: member designators, member access,
+        # offsetof, labels and tags (each macro is used several times: its stored replacement list must stay intact)
+        body.append("struct zs { int zx, zy; struct { int zi; } zn; };\n#define ZM zx\n#define ZN zn\n#define ZI zi\n#define ZT zs\n#define ZL zlab")
+        for i in range(draw(st.integers(2, 4))):
+            k = draw(st.integers(0, 5))
+            body.append(["struct zs zv%d = { .ZM = %d, .ZN.ZI = 2 };", "int zo%d = __builtin_offsetof(struct zs, ZM) + %d;", "int zp%d = __builtin_offsetof(struct ZT, ZN.ZI) + %d;",
+                         "int zf%d(struct ZT *p) { ZL: if (p->ZM == %d) goto ZL; return p->ZN.ZI; }", "struct ZT zw%d = { %d, .ZN = { .ZI = 1 } };",
+                         "int zs%d = sizeof(((struct zs *)0)->ZN.ZI) + %d;"][k] % (i, i))
     return "\n".join(lines + pre + body) + "\n"
 
 
